@@ -13,7 +13,7 @@ package observer
 //   each transaction is processed by the processor of its own namespace and protocol version ...
 //@   atcall Get transactionTime == txn.ProtocolVersion
 //@   atcall TransactionProcessor this == verOf(clientOf(o.ProtocolClientProvider, txn.Namespace), txn.ProtocolVersion)
-//@   atcall Process sidetreeTxn == txn && this == txnProcOf(verOf(clientOf(o.ProtocolClientProvider, txn.Namespace), txn.ProtocolVersion))
+//@   atcall Process sidetreeTxn == txns[_k] && this == txnProcOf(verOf(clientOf(o.ProtocolClientProvider, txn.Namespace), txn.ProtocolVersion))
 //   ... and every transaction whose namespace and version resolve is handed to it, whatever happened to earlier ones
 //@   loop 1
 //@     invariant nsLookups == old(nsLookups) + _k
